@@ -1,12 +1,14 @@
 """Reference acceptance policy for C13, written from the documentation of AE.require_calling_aet / require_called_aet and
-evt.EVT_USER_ID: leading/trailing spaces of AE titles are not significant, everything else (case, embedded spaces) is."""
+evt.EVT_USER_ID: leading/trailing spaces of AE titles are not significant, everything else (case, embedded spaces) is; titles are
+compared as whole strings (a prefix, suffix, fragment or superstring of an allowed title is a different title)."""
 
 
 def decide(calling_field: bytes, called_field: bytes, own_title: str, require_calling, require_called, identity, handler):
     """-> (accept: bool, allowed_reject_codes: set of (result, source, reason)).
 
     calling_field/called_field: the 16 bytes of the A-ASSOCIATE-RQ; identity: None or a dict; handler: None (unbound) or
-    {"verdict": bool} or {"raises": True}."""
+    {"verdict": <returned verdict; only a truthy one is positive>} or {"raises": <truthy: the handler raises>}; own_title: the acceptor's
+    AE title as configured (padding not significant)."""
     calling = calling_field.decode("ascii").strip(" ")
     called = called_field.decode("ascii").strip(" ")
     failed = set()
